@@ -9,11 +9,16 @@
 
    An entry is modelled as a `response` (payload + the id it came with; the placeholder carries id null); the real
    entry `Result<R, ErrorObject>` is its payload.  Left out: the request guard, the timeout, transport errors, and
-   decoding of the result into the caller's type R (the harness uses R = Box<RawValue>, which cannot fail). *)
+   decoding of the result into the caller's type R (the harness uses R = Box<RawValue>, which cannot fail).
+   The body goes through `http_helpers::read_body` first (Model/HttpGate.v: leading ASCII whitespace is skipped and
+   the first other byte must be '{' or '[' within the sniff window, else HttpError::Malformed = a transport error);
+   the response body is taken as one data frame. *)
 From JV Require Import Base.Bytes Base.Dec Base.Utf8 Json.Json Json.JsonSer Json.JsonParse Model.Wire Model.ClientMgr.
+From JV Require Model.HttpGate.
 Local Open Scope N_scope.
 
 Inductive herr :=
+| HTransport        (* read_body refuses the body (empty, or not starting with '{' / '['): Error::Transport *)
 | HParse            (* the body is not an array of responses: Error::ParseError *)
 | HBadId            (* InvalidRequestId::Invalid: null / non-numeric string id *)
 | HNotPending.      (* InvalidRequestId::NotPendingRequest: id outside lo .. lo+n *)
@@ -57,10 +62,19 @@ Fixpoint parse_all (ts : list bytes) : option (list response) :=
     end
   end.
 
-Definition http_reply (lo n : N) (body : bytes) : hres :=
-  match raw_array body with
+(* HttpClientBuilder default max_response_size: TEN_MB_SIZE_BYTES *)
+Definition http_max_response : N := 10485760.
+
+Definition http_parse (lo n : N) (text : bytes) : hres :=
+  match raw_array text with
   | Some ts => match parse_all ts with Some rs => http_batch_r lo n rs | None => HErr HParse end
   | None => HErr HParse
+  end.
+
+Definition http_reply (lo n : N) (body : bytes) : hres :=
+  match HttpGate.read_body [] [HttpGate.FData body] http_max_response with
+  | HttpGate.RbOk text _ => http_parse lo n text
+  | _ => HErr HTransport
   end.
 
 (* the ids the client puts on the wire *)
